@@ -15,14 +15,24 @@ from vlib.serialize import Ser
 SIMS = [pyrtl.Simulation, pyrtl.FastSimulation, pyrtl.CompiledSimulation]
 
 
-def mem_design(aw, dw, nrd, nwr):
+def mem_design(aw, dw, nrd, nwr, regports=False):
+    """`regports`: every port's address/data/enable comes from a Register fed by the Input of the same name
+    (so the value a port sees is the one of the previous cycle, and 0 in the first)"""
     pyrtl.reset_working_block()
     m = MemBlock(dw, aw, 'mem', asynchronous=True, max_read_ports=None, max_write_ports=None)
+
+    def src(width, name):
+        i = Input(width, name)
+        if not regports:
+            return i
+        r = pyrtl.Register(width, 'r_' + name)
+        r.next <<= i
+        return r
     for k in range(nwr):
-        wa, wd, we = Input(aw, 'wa%d' % k), Input(dw, 'wd%d' % k), Input(1, 'we%d' % k)
+        wa, wd, we = src(aw, 'wa%d' % k), src(dw, 'wd%d' % k), src(1, 'we%d' % k)
         m[wa] <<= MemBlock.EnabledWrite(wd, we)
     for k in range(nrd):
-        ra = Input(aw, 'ra%d' % k)
+        ra = src(aw, 'ra%d' % k)
         o = Output(dw, 'rd%d' % k)
         o <<= m[ra]
     return pyrtl.working_block(), m
@@ -30,7 +40,16 @@ def mem_design(aw, dw, nrd, nwr):
 
 def history(rng, aw, dw, nrd, nwr, ncyc):
     steps = []
-    hot = [rng.getrandbits(aw) for _ in range(3)]
+    # hot addresses alias each other in their low bits (hash buckets, 32/64-bit truncation) and differ in
+    # the top bit, so that entries sharing a bucket/limb are written and read back
+    base = rng.getrandbits(aw)
+    hot = [base, rng.getrandbits(aw)]
+    for sh in (8, 16, 32, aw - 1):
+        if 0 < sh < aw:
+            hot.append(base ^ ((rng.getrandbits(aw - sh) or 1) << sh))
+    hot = list(dict.fromkeys(hot))
+    if len(hot) > 5:
+        hot = hot[:2] + rng.sample(hot[2:], 3)
     for _ in range(ncyc):
         s = {}
         used = set()
@@ -59,15 +78,22 @@ def array_oracle(steps, init, nrd, nwr, dflt=0):
     return out, mem
 
 
-def check_history(ctx, aw, dw, nrd, nwr, steps, init, label):
-    blk, m = mem_design(aw, dw, nrd, nwr)
-    want, final = array_oracle(steps, init, nrd, nwr)
+def check_history(ctx, aw, dw, nrd, nwr, steps, init, label, regports=False):
+    blk, m = mem_design(aw, dw, nrd, nwr, regports)
+    eff = steps if not regports else [{k: 0 for k in steps[0]}] + steps[:-1]
+    want, final = array_oracle(eff, init, nrd, nwr)
     names = ['rd%d' % k for k in range(nrd)]
     replay = {'kind': 'mem-history', 'aw': aw, 'dw': dw, 'read_ports': nrd, 'write_ports': nwr, 'steps': steps,
-              'init': {str(a): v for a, v in init.items()}, 'label': label}
+              'init': {str(a): v for a, v in init.items()}, 'label': label, 'registered_ports': regports}
     ok = True
     for simcls in SIMS:
         real = simrun.run_real(simcls, blk, steps, {}, {m: dict(init)}, 0, track=None)
+        if real['err'] is not None and simcls is pyrtl.CompiledSimulation and aw > 64 and real['err'][1] == 'PyrtlError' \
+                and '64 address bits' in real['err'][2]:
+            ctx.violation('mem-unsupported:CompiledSimulation:addrwidth>64',
+                          'CompiledSimulation refuses a memory with %d address bits (%s)' % (aw, real['err'][2][:80]),
+                          dict(replay, simulator=simcls.__name__))
+            continue
         if real['err'] is not None:
             ctx.violation('mem-raises:' + simcls.__name__, '%s raised %s on a legal memory history: %s' % (
                 simcls.__name__, real['err'][1], real['err'][2]), dict(replay, simulator=simcls.__name__))
@@ -228,19 +254,21 @@ def rom_cases(ctx, rng):
 def main(ctx):
     proofs_ok = proof_gate(ctx, gen_modules=[])
     rng = ctx.rng
-    n = ctx.n(40, 800)
+    n = ctx.n(60, 1200)
     agree = 0
     for k in range(n):
-        aw = rng.choice([1, 1, 2, 3, 5, 9, 16, 33, 64, 70] if k % 3 == 0 else [1, 2, 3])
+        aw = rng.choice([1, 2, 3, 5, 9, 9, 10, 16, 33, 64, 70] if k % 2 == 0 else [1, 2, 3])
         dw = rng.choice([1, 2, 7, 8, 32, 63, 64, 65, 70])
         nrd, nwr = rng.randint(1, 3), rng.randint(1, 3)
-        steps = history(rng, aw, dw, nrd, nwr, rng.choice([4, 8, 12]))
+        steps = history(rng, aw, dw, nrd, nwr, rng.choice([4, 8, 12, 16]))
         size = 1 << aw
         addrs = range(size) if size <= 8 else set(s['ra0'] for s in steps) | {rng.getrandbits(aw) for _ in range(3)}
         init = {a: gen.rand_value(rng, dw) for a in addrs if rng.random() < 0.5}
         if aw > 64:
             init = {}
-        ok = check_history(ctx, aw, dw, nrd, nwr, steps, init, 'hist#%d' % k)
+        regports = (k % 4 == 1)
+        ok = check_history(ctx, aw, dw, nrd, nwr, steps, init, 'hist#%d' % k, regports)
+        ctx.count('ports-from-registers', regports)
         agree += ok
         ctx.case((aw, dw, nrd, nwr, len(steps)), nontrivial=True)
         ctx.count('addrwidth', aw)
